@@ -194,6 +194,14 @@ func Run(region *core.RegionInfo, op *operator.Operator) *Trace {
 			t.ErrAt = i
 			return t
 		}
+		_, isSplit := st.(operator.SplitRegion)
+		_, isMerge := st.(operator.MergeRegion)
+		if isSplit || isMerge {
+			// key-range changes are outside the simulator (membership only): their IsFinish looks at keys / epochs
+			s = n
+			t.States = append(t.States, s)
+			continue
+		}
 		if !st.IsFinish(n.Region(region)) {
 			t.Anomalies = append(t.Anomalies, fmt.Sprintf("step %d (%s): real IsFinish false after the step was applied", i, st))
 		}
@@ -302,3 +310,54 @@ func StoresOf(s State) []uint64 {
 }
 
 var _ = z
+
+// ---- the same things in the vocabulary of coq/model/C08_Steps.v (fully qualified), for C08's verified plan checker ----
+
+func c08Role(r metapb.PeerRole) string { return "C08_Steps." + CoqRole(r) }
+
+// Coq08Region prints `C08_Steps.Region peers leader conf_ver rng`.
+func Coq08Region(r *core.RegionInfo) string {
+	var ps []string
+	for _, p := range r.GetPeers() {
+		ps = append(ps, fmt.Sprintf("C08_Steps.Peer %d %d %s", p.GetStoreId(), p.GetId(), c08Role(p.GetRole())))
+	}
+	return fmt.Sprintf("(C08_Steps.Region [%s] %d %d 0)", strings.Join(ps, "; "), r.GetLeader().GetStoreId(), r.GetRegionEpoch().GetConfVer())
+}
+
+func Coq08Step(st operator.OpStep) string {
+	switch x := st.(type) {
+	case operator.TransferLeader:
+		return fmt.Sprintf("C08_Steps.TransferLeader %d %d", x.FromStore, x.ToStore)
+	case operator.AddPeer:
+		return fmt.Sprintf("C08_Steps.AddPeer %d %d", x.ToStore, x.PeerID)
+	case operator.AddLightPeer:
+		return fmt.Sprintf("C08_Steps.AddLightPeer %d %d", x.ToStore, x.PeerID)
+	case operator.AddLearner:
+		return fmt.Sprintf("C08_Steps.AddLearner %d %d", x.ToStore, x.PeerID)
+	case operator.AddLightLearner:
+		return fmt.Sprintf("C08_Steps.AddLightLearner %d %d", x.ToStore, x.PeerID)
+	case operator.PromoteLearner:
+		return fmt.Sprintf("C08_Steps.PromoteLearner %d %d", x.ToStore, x.PeerID)
+	case operator.DemoteFollower:
+		return fmt.Sprintf("C08_Steps.DemoteFollower %d %d", x.ToStore, x.PeerID)
+	case operator.RemovePeer:
+		return fmt.Sprintf("C08_Steps.RemovePeer %d %d", x.FromStore, x.PeerID)
+	case operator.ChangePeerV2Enter:
+		a, b := pairs(x.PromoteLearners, x.DemoteVoters)
+		return fmt.Sprintf("C08_Steps.ChangePeerV2Enter %s %s", a, b)
+	case operator.ChangePeerV2Leave:
+		a, b := pairs(x.PromoteLearners, x.DemoteVoters)
+		return fmt.Sprintf("C08_Steps.ChangePeerV2Leave %s %s", a, b)
+	case operator.MergeRegion:
+		return fmt.Sprintf("C08_Steps.MergeRegion %v 0", x.IsPassive)
+	}
+	return "C08_Steps.SplitRegion 0"
+}
+
+func Coq08Steps(steps []operator.OpStep) string {
+	xs := make([]string, len(steps))
+	for i, s := range steps {
+		xs[i] = Coq08Step(s)
+	}
+	return "[" + strings.Join(xs, "; ") + "]"
+}
